@@ -413,6 +413,27 @@ USER_TABLES = [
 ]
 
 
+def _value_tables():
+    """user tables of VALUE snippets (cssvalues_gen: first alternative of 1-5 tokens -- keywords, numbers with units, colours,
+    strings, calls nested once -- with 1-4 alternatives, with and without explicit fields), fixed seed: the wrap_with_field /
+    output_value path with more than one token and with function calls, which no built-in snippet has"""
+    import random
+    import cssvalues_gen as vg
+    rng = random.Random(20260928)
+    out = []
+    for ti in range(5):
+        t = {}
+        for ki in range(6):
+            t['v%s%s' % ('qzxkw'[ti], 'abcdef'[ki])] = vg.gen_snippet(rng)[0]
+        t['r' + 'qzxkw'[ti]] = rng.choice(vg.RAW_BODIES)
+        out.append(t)
+    return out
+
+
+USER_TABLES = USER_TABLES + _value_tables()
+USER_KEYS = sorted({k for t in USER_TABLES for k in t})
+
+
 def style_keys(syntax='css'):
     from emmet.config import Config
     return sorted(Config({'type': 'stylesheet', 'syntax': syntax}).snippets.keys())
@@ -425,7 +446,7 @@ def rand_part(rng, keys):
     elif r < 0.85:
         key = rng.choice(['p', 'm', 'bd', 'c', 'bg', 'trf', 'trs', 'bxsh', 'fz', 'w', 'pos', 'd', '@kf', '@m', 'lg', 'ff'])
     else:
-        key = rng.choice(['foo', 'bar', 'baz', 'mq', 'gg', 'ml', 'two', 'k', 'zzq', '--my'])
+        key = rng.choice(['foo', 'bar', 'baz', 'mq', 'gg', 'ml', 'two', 'k', 'zzq', '--my'] + USER_KEYS)
     s = key
     for _ in range(rng.choice([0, 0, 1, 1, 2, 3])):
         s += rng.choice(VALUE_FRAGMENTS)
@@ -461,7 +482,7 @@ def rand_options(rng, lf_only=False):
 
 def rand_cfg(rng, lf_only=False):
     syntax = rng.choice(su.SYNTAXES)
-    snippets = rng.choice(USER_TABLES) if rng.random() < 0.2 else None
+    snippets = rng.choice(USER_TABLES) if rng.random() < 0.3 else None
     context = None
     r = rng.random()
     if r < 0.05:
